@@ -102,6 +102,10 @@ def make_rake(cfg):
         return partial(_pk.utilities.rake, percentage=pct, cap=cap)
     if kind == 'nfnd':
         return partial(_pk.utilities.rake, percentage=pct, cap=cap, no_flop_no_drop=True)
+    if kind == 'high':
+        # 75 %: with int chips a pot of one or two chips is raked away entirely (round(0.75) == 1, round(1.5) == 2) - legal
+        return partial(_pk.utilities.rake, percentage={'int': 0.75, 'float': 0.75, 'fraction': Fraction(3, 4),
+                                                       'decimal': Decimal('0.75')}[t])
     if kind == 'perpot':
         one = conv_stack(cfg, 1)
         thr = conv_stack(cfg, 10)
